@@ -118,7 +118,7 @@ func (s *mateShape) parentGene(v ssa.Value) (int, ssa.Value) {
 
 // C04 — crossover children inherit genes only as NEAT's alignment rules allow.
 func C04(p *Prog, r *Run) {
-	r.Explanation = "Decided for the three crossover functions: (1) every child gene is built by NewGeneCopy from the gene chosen in the walk step (an element of a parent's gene list or the averaging scratch gene), NewGeneCopy carries innovation number, mutation number, enabled flag, weight and recurrence flag, and both endpoints are child nodes - found in the child's node list by the id of the chosen gene's own in resp. out node, or a fresh copy of exactly that node inserted into the list; (2) the gene is appended only after a scan of the child's genes with Link.IsEqualGenetically found no equal link, and the scan cannot be bypassed; (3) the averaging branch stores (w1+w2)/2, (m1+m2)/2, the matched number and endpoints/recurrence/trait taken from the same field of one of the two matched genes; (4) enabled flag: a child or scratch gene is set disabled only on paths where one of the two matched parent genes was tested disabled, the flag that requests it does not survive into the next step, and the scratch gene is re-enabled at the top of every step; (5) multipoint methods, decision table of one walk step enumerated over the SSA paths from the loop header to the skip test: which gene is chosen, which cursor advances and whether it is skipped, for excess/disjoint/matching genes under both values of the fitter-parent flag, whose own definition is (f1 > f2) or (f1 == f2 and fewer genes); (6) parents unmodified (transitive write sets through both parent parameters are empty); (7) traits: child trait i is the average of both parents' trait i, parameter by parameter; (8) interface nodes: copies of all input, bias and output nodes are seeded before the walk. Not decided: global behaviour of the two-pointer walk beyond one step; single-point's choice rule (not part of the statement)."
+	r.Explanation = "Decided for the three crossover functions: (1) every child gene is built by NewGeneCopy from the gene chosen in the walk step (an element of a parent's gene list or the averaging scratch gene), NewGeneCopy carries innovation number, mutation number, enabled flag, weight and recurrence flag, and both endpoints are child nodes - found in the child's node list by the id of the chosen gene's own in resp. out node, or a fresh copy of exactly that node inserted into the list; (2) the gene is appended only after a scan of the child's genes with Link.IsEqualGenetically found no equal link, and the scan cannot be bypassed; (3) the averaging branch stores (w1+w2)/2, (m1+m2)/2, the matched number and endpoints/recurrence/trait taken from the same field of one of the two matched genes; (4) enabled flag: a child or scratch gene is set disabled only on paths where one of the two matched parent genes was tested disabled, the flag that requests it does not survive into the next step, and the scratch gene is re-enabled at the top of every step; (5) multipoint methods, decision table of one walk step enumerated over the SSA paths from the loop header to the skip test: which gene is chosen, which cursor advances and whether it is skipped, for excess/disjoint/matching genes under both values of the fitter-parent flag, whose own definition is (f1 > f2) or (f1 == f2 and fewer genes); (6) parents unmodified (transitive write sets through both parent parameters are empty); (7) traits: child trait i is the average of both parents' trait i, parameter by parameter; (8) interface nodes: copies of all input, bias and output nodes are seeded before the walk. Branch conditions are read as the comparison that holds (CmpFact) with `a < b` and `b > a` taken as one fact and the facts about one pair of values intersected along a path. Further necessary conditions: the child's gene and node lists start empty; an end node is copied only after an exhaustive search of the child's nodes found none with its id, and the node handed to the gene is never nil; every copied gene and node gets the child's trait at the position of its parent's trait (0 without one); a gene is read only at a cursor found below its parent's gene count and the cursors start at 0; every field of the averaging scratch gene is set on every path that hands it on; mateTraits fills every position and returns the list unless an average failed, NewTraitAvrg refuses only unequal parameter counts and covers indices 0..len-1; (9) a crossover refuses only on unequal trait counts or a failed trait averaging; (10) every step of the single-point walk advances one of its counters by one and moves no cursor otherwise. Not decided: global behaviour of the two-pointer walk beyond one step; single-point's choice rule (not part of the statement)."
 	sums := NewSummaries(p)
 	shapes := []*mateShape{}
 	for _, n := range []string{"mateMultipoint", "mateMultipointAvg", "mateSinglePoint"} {
@@ -200,6 +200,7 @@ func C04(p *Prog, r *Run) {
 		tm := NewTermer(mt)
 		okLen, okElem := false, false
 		var foreign []string
+		var avgStores []*ssa.Store
 		Instrs(mt, func(_ *ssa.BasicBlock, _ int, in ssa.Instruction) {
 			if ms, ok := in.(*ssa.MakeSlice); ok {
 				if tm.Of(ms.Len).String() == "len(recv.Traits)" {
@@ -214,6 +215,7 @@ func C04(p *Prog, r *Run) {
 						if a[0].Op == "elem" && a[0].Args[0].String() == "recv.Traits" && a[1].Op == "elem" && a[1].Args[0].String() == "p1.Traits" &&
 							a[0].Args[1].V == ia.Index && a[1].Args[1].V == ia.Index {
 							okElem = true
+							avgStores = append(avgStores, st)
 							return
 						}
 					}
@@ -227,6 +229,8 @@ func C04(p *Prog, r *Run) {
 			"the child's trait list also receives "+strings.Join(foreign, "; ")+": a trait object of a parent becomes part of the child, so mutating the child's traits changes the parent (and, under the parallel executor, races with other goroutines reading that parent)")
 		r.Check(okLen && okElem, "mateTraits", p.Pos(mt.Pos()), "newTraits[i] = NewTraitAvrg(g.Traits[i], og.Traits[i]), len(g.Traits) of them",
 			fmt.Sprintf("mateTraits does not build len(g.Traits) traits with newTraits[i] = NewTraitAvrg(g.Traits[i], og.Traits[i]) (length ok=%v, element ok=%v)", okLen, okElem))
+		r.c04MateTraitsCoverage(mt, avg, tm, avgStores)
+		r.c04TraitAvrgFailsOnlyOnMismatch(avg)
 		sm := sums.Ctor(avg)
 		if sm.Why != "" {
 			r.Undecided("NewTraitAvrg", p.Pos(avg.Pos()), sm.Why)
@@ -247,13 +251,39 @@ func C04(p *Prog, r *Run) {
 			r.Check(okAvg && id != nil && id.String() == "p0.Id", "NewTraitAvrg", p.Pos(avg.Pos()), "Params[i] = (t1.Params[i] + t2.Params[i]) / 2, Id of the first trait", fmt.Sprintf("NewTraitAvrg: Params[i] = %v, Id = %v", el, id))
 			// the loop covers all parameters
 			atm := NewTermer(avg)
+			// the loop covers all parameters: it runs while i < len(t.Params), i takes the values 0, 1, 2, ..., it is left
+			// only when the bound is reached, and every iteration stores the mean at index i
 			okRange := false
+			whyRange := "no loop runs while i < len(t.Params)"
 			for _, l := range Loops(avg) {
-				if loopRangesOver(atm, l, "p0.Params") || loopRangesOver(atm, l, "p1.Params") {
+				idx := c04LoopBound(atm, l, func(t *Term) bool { return t.String() == "p0.Params" || t.String() == "p1.Params" })
+				if idx == nil {
+					continue
+				}
+				switch {
+				case !c04FromZeroByOne(l, idx):
+					whyRange = "the index does not start at 0 and advance by 1 in every iteration"
+				case !c04OnlyHeaderExit(l):
+					whyRange = "the loop can be left before the last parameter"
+				case !c04StoresAtIndexEveryIteration(atm, l, idx):
+					whyRange = "not every iteration stores the mean of the two parameters at the loop index"
+				default:
 					okRange = true
 				}
 			}
-			r.Check(okRange, "NewTraitAvrg.range", p.Pos(avg.Pos()), "all parameters are averaged", "NewTraitAvrg does not loop over all parameters")
+			r.Check(okRange, "NewTraitAvrg.range", p.Pos(avg.Pos()), "all parameters are averaged: index 0, 1, .. len-1, one store per index", "NewTraitAvrg does not average every parameter: "+whyRange)
+		}
+	})
+
+	r.Rule("C04.9", "a child is produced: a crossover refuses only when the parents' trait counts differ or the trait averaging failed", func() {
+		for _, s := range shapes {
+			r.c04ChildProduced(s)
+		}
+	})
+
+	r.Rule("C04.10", "single-point walk: every step moves a counter of the walk forward and no cursor otherwise", func() {
+		if s := shapes[2]; s.why == "" && s.skip1 != nil && s.walk != nil {
+			r.c04Progress(s)
 		}
 	})
 
@@ -326,9 +356,12 @@ func (r *Run) c04Provenance(s *mateShape) {
 		cons := s.name + ".endpoint." + end
 		okAll := len(w.Feeders) > 0
 		var why []string
+		var copies []*ssa.Call
+		var found []ssa.Value
 		for _, f := range w.Feeders {
 			ft := tm.Of(f)
 			if c, ok := f.(*ssa.Call); ok && c.Call.StaticCallee() == nnc {
+				copies = append(copies, c)
 				// a fresh copy of the chosen gene's own node, inserted into the child's list
 				if !fieldChainOnWeb(tm.Of(c.Call.Args[0]), s.chosen, "Link", end) {
 					okAll = false
@@ -347,6 +380,7 @@ func (r *Run) c04Provenance(s *mateShape) {
 				continue
 			}
 			if ft.Op == "elem" {
+				found = append(found, f)
 				// found in the child's node list by id: the edge carrying it is guarded by element.Id == chosen.Link.<end>.Id
 				okG := false
 				for ph := range w.Phis {
@@ -356,10 +390,12 @@ func (r *Run) c04Provenance(s *mateShape) {
 						}
 						pred := ph.Block().Preds[i]
 						for _, g := range condsAt(pred, ph.Block()) {
-							a, b, ok := eqCond(tm, g)
-							if !ok {
+							// the outcome read as the comparison that holds: `a == b`, `b == a`, `!(a != b)`, `a != b` taken false
+							x, y, op, ok := CmpFact(g.Cond, g.True)
+							if !ok || op != token.EQL {
 								continue
 							}
+							a, b := tm.Of(x), tm.Of(y)
 							for _, pr := range [][2]*Term{{a, b}, {b, a}} {
 								if fieldChainOn(pr[0], f, "Id") && fieldChainOnWeb(pr[1], s.chosen, "Link", end, "Id") {
 									okG = true
@@ -386,11 +422,31 @@ func (r *Run) c04Provenance(s *mateShape) {
 		}
 		r.Check(okAll, cons, p.Pos(s.copyCall.Pos()), "the "+end+" of a child gene is the child's node with the id of the chosen gene's "+end+" (found, or a fresh inserted copy)",
 			"the "+end+" of a child gene can be "+strings.Join(why, "; "))
+		if !okAll {
+			continue
+		}
+		// the copy is made only when the child has no node with that id; the end node handed to the gene is never nil
+		okL, whyL := r.c04Lookup(s, end, w, copies, found)
+		r.Check(okL, cons+".lookup", p.Pos(s.copyCall.Pos()), "a parent's node is copied only after the search of the child's node list found no node with its id",
+			"the child can get two nodes with one id: "+whyL)
+		r.Check(c04NonNil(v, s.copyCall.Block(), nil, nnc, 0), cons+".nonnil", p.Pos(s.copyCall.Pos()), "the end node handed to the gene copy is a found or freshly copied node, never nil",
+			"the "+end+" handed to the child's gene can be nil (the result of an unsuccessful search is used without a copy being made)")
+		for _, c := range copies {
+			okT, whyT := s.c04TraitIndex(c.Call.Args[1], c04NodeTraitIs(c.Call.Args[0]))
+			r.Check(okT, cons+".trait", p.Pos(c.Pos()), "the copied node gets the child's trait at the position of the parent node's trait (0 without a trait)",
+				"the copy of the gene's "+end+" does not get the child's counterpart of the parent node's trait: "+whyT)
+		}
 	}
+	r.c04FreshLists(s)
 	// the trait comes from the child's traits
 	tt := tm.Of(s.copyCall.Call.Args[1])
 	okT := tt.Op == "elem" && strings.Contains(tt.Args[0].String(), "mateTraits")
 	r.Check(okT, s.name+".trait", p.Pos(s.copyCall.Pos()), "the child gene's trait is one of the child's traits", "the child gene's trait is "+tt.String()+", not an element of the child's trait list")
+	if okT {
+		okI, whyI := s.c04TraitIndex(s.copyCall.Call.Args[1], func(t *Term) bool { return fieldChainOnWeb(t, s.chosen, "Link", "Trait") })
+		r.Check(okI, s.name+".trait.index", p.Pos(s.copyCall.Pos()), "the child gene gets the child's trait at the position of the chosen gene's trait (0 without a trait)",
+			"the child gene does not get the child's counterpart of the chosen gene's trait: "+whyI)
+	}
 	// the new gene goes into the child's gene list, which is what the genome is built from
 	res := ssa.Value(s.copyCall)
 	var blocks []*ssa.BasicBlock
@@ -417,40 +473,70 @@ func (r *Run) c04IsEqualGenetically() {
 	fn := p.Func(PkgN, "Link.IsEqualGenetically")
 	r.Fn(FuncName(fn))
 	tm := NewTermer(fn)
-	// the result is the conjunction of the three equalities: collect the comparison terms it is built from
+	// The result, as a boolean function of the three equalities (in id, out id, recurrence flag of the two links), is
+	// their conjunction. Decided over the paths of the function: for every truth assignment of the three equalities,
+	// every path whose branch outcomes agree with the assignment returns a value that evaluates to "all three hold" -
+	// whichever way the comparisons are spelled (a == b, b == a, !(a != b), early returns, named booleans).
+	fields := []string{"InNode.Id", "OutNode.Id", "IsRecurrent"}
 	found := map[string]bool{}
-	other := 0
-	Instrs(fn, func(_ *ssa.BasicBlock, _ int, in ssa.Instruction) {
-		b, ok := in.(*ssa.BinOp)
-		if !ok {
-			return
-		}
-		if b.Op != token.EQL {
-			if b.Op == token.NEQ || b.Op == token.LOR {
-				other++
-			}
-			return
-		}
-		x, y := tm.Of(b.X).String(), tm.Of(b.Y).String()
-		for _, f := range []string{"InNode.Id", "OutNode.Id", "IsRecurrent"} {
-			if (x == "recv."+f && y == "p1."+f) || (y == "recv."+f && x == "p1."+f) {
+	atom := func(x, y ssa.Value) int {
+		xs, ys := tm.Of(x).String(), tm.Of(y).String()
+		for i, f := range fields {
+			if (xs == "recv."+f && ys == "p1."+f) || (ys == "recv."+f && xs == "p1."+f) {
 				found[f] = true
+				return i
 			}
 		}
-	})
-	// returns true only through all three
-	okRet := true
-	for _, b := range fn.Blocks {
-		if ret, ok := b.Instrs[len(b.Instrs)-1].(*ssa.Return); ok {
-			for _, alt := range tm.Of(ret.Results[0]).Alternatives() {
-				if alt.Op == "const" && alt.Name == "true" {
-					okRet = false
-				}
-			}
+		return -1
+	}
+	paths, complete := EnumRegionPaths(fn, fn.Blocks[0], func(*ssa.BasicBlock) bool { return false }, 500)
+	ok, why := complete, ""
+	if !complete {
+		why = "too many paths"
+	}
+	for _, ip := range paths {
+		if ip.End != "return" {
+			ok, why = false, "the function contains a loop"
 		}
 	}
-	r.Check(len(found) == 3 && other == 0 && okRet, "IsEqualGenetically", p.Pos(fn.Pos()), "true exactly when in id, out id and recurrence flag agree",
-		fmt.Sprintf("Link.IsEqualGenetically does not compare in id, out id and recurrence flag of both links (found %v)", found))
+	for a := 0; a < 8 && ok; a++ {
+		asg := []bool{a&1 != 0, a&2 != 0, a&4 != 0}
+		exp := asg[0] && asg[1] && asg[2]
+		admitted := 0
+		for _, ip := range paths {
+			consistent := true
+			for _, g := range ip.Conds {
+				if v, known := c04EvalBool(ip, g.Cond, atom, asg, 0); known && v != g.True {
+					consistent = false
+					break
+				}
+			}
+			if !consistent {
+				continue
+			}
+			admitted++
+			last := ip.Blocks[len(ip.Blocks)-1]
+			ret, isRet := last.Instrs[len(last.Instrs)-1].(*ssa.Return)
+			if !isRet || len(ret.Results) != 1 {
+				ok, why = false, "a path does not return one value"
+				break
+			}
+			got, known := c04EvalBool(ip, ret.Results[0], atom, asg, 0)
+			if !known || got != exp {
+				gs := "a value not determined by the three equalities (" + tm.Of(ip.ResolveAt(ret.Results[0])).String() + ")"
+				if known {
+					gs = fmt.Sprint(got)
+				}
+				ok, why = false, fmt.Sprintf("with same in id=%v, same out id=%v, same recurrence flag=%v it returns %s", asg[0], asg[1], asg[2], gs)
+				break
+			}
+		}
+		if admitted == 0 && ok {
+			ok, why = false, "no path for an assignment of the three equalities"
+		}
+	}
+	r.Check(ok && len(found) == 3, "IsEqualGenetically", p.Pos(fn.Pos()), "true exactly when in id, out id and recurrence flag agree",
+		fmt.Sprintf("Link.IsEqualGenetically does not compare in id, out id and recurrence flag of both links (found %v): %s", found, why))
 }
 
 func (r *Run) c04Conflict(s *mateShape) {
@@ -515,54 +601,71 @@ func headerBodySucc(l *Loop) *ssa.BasicBlock {
 
 // loopRangesOverValue: the loop ranges over the slice that `elem` is appended to.
 func loopRangesOverValue(tm *Termer, l *Loop, elem ssa.Value) bool {
-	iff, ok := l.Header.Instrs[len(l.Header.Instrs)-1].(*ssa.If)
-	if !ok {
-		return false
-	}
-	ct := tm.Of(iff.Cond)
-	if !(ct.Op == "bin" && ct.Name == "<" && ct.Args[1].Op == "len") {
-		return false
-	}
-	// the list's web contains an append whose element is elem
-	lv := ct.Args[1].Args[0].V
-	for _, f := range phiWeb(lv).Feeders {
-		if c, ok := f.(*ssa.Call); ok {
-			if _, elems, ok := appendCall(c); ok {
-				for _, e := range elems {
-					if e == elem {
-						return true
+	// the loop runs while `i < len(list)` (in any spelling) and the list's web contains an append whose element is elem
+	return c04LoopBound(tm, l, func(lt *Term) bool {
+		if lt.V == nil {
+			return false
+		}
+		for _, f := range phiWeb(lt.V).Feeders {
+			if c, ok := f.(*ssa.Call); ok {
+				if _, elems, ok := appendCall(c); ok {
+					for _, e := range elems {
+						if e == elem {
+							return true
+						}
 					}
 				}
 			}
 		}
-	}
-	return false
+		return false
+	}) != nil
 }
 
-// matchedPair finds, among the conditions of a path, the two parent genes whose innovation numbers were compared.
+// matchedPair finds, among the conditions of a path, the two parent genes whose innovation numbers were compared, and
+// what the conditions together say about the two numbers: "==", "<", ">" (decided), "!=", "<=", ">=" (partly), ""
+// (nothing, or contradictory). Every condition is read as the comparison that holds (CmpFact), in either operand
+// order: `a < b`, `b > a`, `!(a >= b)` and `a >= b` taken false are one fact; the facts about one pair are intersected
+// (`a != b` and `a >= b` give `a > b`). The relation is that of g1's number to g2's number.
 func (s *mateShape) matchedPair(conds []Guard) (g1, g2 ssa.Value, rel string) {
+	type pair struct {
+		a, b ssa.Value
+		mask int
+	}
+	var pairs []*pair
+	var base [2]ssa.Value
+	isInnov := func(v ssa.Value) bool {
+		t := s.tm.Of(v)
+		return t.Op == "field" && t.Name == "InnovationNum" && len(t.Args) > 0 && t.Args[0].V != nil
+	}
 	for _, g := range conds {
-		b, ok := g.Cond.(*ssa.BinOp)
+		x, y, m, ok := c04OrderFact(g.Cond, g.True, isInnov, isInnov)
 		if !ok {
 			continue
 		}
-		xt, yt := s.tm.Of(b.X), s.tm.Of(b.Y)
-		if xt.Op == "field" && xt.Name == "InnovationNum" && yt.Op == "field" && yt.Name == "InnovationNum" {
-			a, c := xt.Args[0].V, yt.Args[0].V
-			switch {
-			case b.Op == token.EQL && g.True:
-				return a, c, "=="
-			case b.Op == token.EQL && !g.True:
-				g1, g2, rel = a, c, "!="
-			case b.Op == token.LSS && g.True:
-				return a, c, "<"
-			case b.Op == token.LSS && !g.True:
-				if rel == "!=" {
-					return a, c, ">"
-				}
-				g1, g2, rel = a, c, ">="
+		base[0], base[1] = s.tm.Of(x).Args[0].V, s.tm.Of(y).Args[0].V
+		var hit *pair
+		for _, pr := range pairs {
+			if pr.a == base[0] && pr.b == base[1] {
+				hit = pr
+			} else if pr.a == base[1] && pr.b == base[0] {
+				hit, m = pr, c04FlipMask(m)
 			}
 		}
+		if hit == nil {
+			hit = &pair{base[0], base[1], c04LT | c04EQ | c04GT}
+			pairs = append(pairs, hit)
+		}
+		hit.mask &= m
+	}
+	name := map[int]string{c04EQ: "==", c04LT: "<", c04GT: ">", c04LT | c04GT: "!=", c04LT | c04EQ: "<=", c04GT | c04EQ: ">="}
+	// a decided pair first
+	for _, pr := range pairs {
+		if pr.mask == c04EQ || pr.mask == c04LT || pr.mask == c04GT {
+			return pr.a, pr.b, name[pr.mask]
+		}
+	}
+	for _, pr := range pairs {
+		return pr.a, pr.b, name[pr.mask]
 	}
 	return
 }
@@ -627,7 +730,35 @@ func (r *Run) c04Averaging(s *mateShape) {
 			missing = append(missing, f)
 		}
 	}
-	r.Check(len(missing) == 0, s.name+".avg.complete", p.Pos(s.fn.Pos()), "every field of the scratch gene is refreshed for each averaged pair", "the averaging branch does not set "+strings.Join(missing, ", ")+" of the scratch gene: values of an earlier pair leak into this child gene")
+	// ... on every path of a walk step that hands the scratch gene on as the chosen gene
+	var wit []string
+	if len(missing) == 0 && s.skip1 != nil {
+		stop := s.skip1.Block()
+		paths, complete := EnumRegionPaths(s.fn, s.walk.Header, func(b *ssa.BasicBlock) bool { return b == stop }, 4000)
+		if !complete {
+			r.Undecided(s.name+".avg.paths", p.Pos(s.fn.Pos()), "too many paths through one walk step")
+			return
+		}
+		r.PathsExplored += len(paths)
+		for _, ip := range paths {
+			if ip.End != "stop" || ip.ResolveAt(s.chosen) != s.avgGene || len(missing) > 0 {
+				continue
+			}
+			for _, f := range []string{"Link.ConnectionWeight", "MutationNum", "InnovationNum", "Link.InNode", "Link.OutNode", "Link.IsRecurrent", "Link.Trait"} {
+				set := false
+				for _, x := range stores {
+					if x.path == f && ip.OnPath(x.in) {
+						set = true
+					}
+				}
+				if !set {
+					missing = append(missing, f+" (on some path)")
+					wit = ip.Describe(p)
+				}
+			}
+		}
+	}
+	r.Check(len(missing) == 0, s.name+".avg.complete", p.Pos(s.fn.Pos()), "every field of the scratch gene is refreshed for each averaged pair, on every path", "the averaging branch does not set "+strings.Join(missing, ", ")+" of the scratch gene: values of an earlier pair leak into this child gene", wit...)
 }
 
 // c04Enabled: path-wise over the region header -> skip test.
@@ -647,7 +778,7 @@ func (r *Run) c04Enabled(s *mateShape) {
 			return false
 		}
 		for _, g := range ip.Conds {
-			if boolFieldCond(tm, g, g1, false, "IsEnabled") || boolFieldCond(tm, g, g2, false, "IsEnabled") {
+			if c04BoolFieldIs(tm, g, g1, false, "IsEnabled") || c04BoolFieldIs(tm, g, g2, false, "IsEnabled") {
 				return true
 			}
 		}
@@ -867,13 +998,20 @@ func (r *Run) c04StepTable(s *mateShape) {
 	p, tm := r.P, s.tm
 	// cursors: header phis compared with the parents' lengths
 	var i1, i2 *ssa.Phi
+	isLen1 := func(v ssa.Value) bool { return tm.Of(v).String() == "len(recv.Genes)" }
+	isLen2 := func(v ssa.Value) bool { return tm.Of(v).String() == "len(p1.Genes)" }
 	for _, ph := range HeaderPhis(s.walk) {
 		for _, ref := range *ph.Referrers() {
-			if b, ok := ref.(*ssa.BinOp); ok && b.X == ssa.Value(ph) {
-				switch tm.Of(b.Y).String() {
-				case "len(recv.Genes)":
+			// a cursor is compared with its parent's gene count, on either side of the comparison
+			if b, ok := ref.(*ssa.BinOp); ok && (b.X == ssa.Value(ph) || b.Y == ssa.Value(ph)) {
+				other := b.Y
+				if other == ssa.Value(ph) {
+					other = b.X
+				}
+				switch {
+				case isLen1(other):
 					i1 = ph
-				case "len(p1.Genes)":
+				case isLen2(other):
 					i2 = ph
 				}
 			}
@@ -929,6 +1067,22 @@ func (r *Run) c04StepTable(s *mateShape) {
 		r.Bad(s.name+".p1better", p.Pos(s.fn.Pos()), "no flag computed before the walk decides which parent's unmatched genes are kept")
 		return
 	}
+	// both cursors start at the first gene
+	okStart := true
+	for _, ph := range []*ssa.Phi{i1, i2} {
+		for i, e := range ph.Edges {
+			if s.walk.Blocks[ph.Block().Preds[i]] {
+				continue
+			}
+			if k, isK := constInt(e); !isK || k != 0 {
+				okStart = false
+			}
+			if _, isC := e.(*ssa.Const); !isC {
+				okStart = false
+			}
+		}
+	}
+	r.Check(okStart, s.name+".walk.start", p.Pos(firstBlockPos(s.walk.Header)), "both cursors start at index 0", "the gene walk does not start at the first gene of each parent: the genes before the start are never inherited")
 	// definition of the flag
 	root := pb.Block().Idom()
 	dpaths, dcomplete := EnumRegionPaths(s.fn, root, func(b *ssa.BasicBlock) bool { return b == pb.Block() }, 200)
@@ -990,6 +1144,17 @@ func (r *Run) c04StepTable(s *mateShape) {
 	}
 	r.Check(okDef && nDef >= 1, s.name+".p1better.definition", p.Pos(pb.Pos()), "first parent is fitter iff f1 > f2, or f1 == f2 and it has fewer genes", "the fitter-parent flag is not (fitness1 > fitness2) || (fitness1 == fitness2 && len(g.Genes) < len(og.Genes)): "+why)
 	// decision table
+	isI1 := func(v ssa.Value) bool { return v == ssa.Value(i1) }
+	isI2 := func(v ssa.Value) bool { return v == ssa.Value(i2) }
+	cursorState := func(mask int) int {
+		switch {
+		case mask&c04LT == 0:
+			return 1 // cursor >= count (or ==, >): exhausted
+		case mask == c04LT:
+			return -1
+		}
+		return 0
+	}
 	stop := s.skip1.Block()
 	paths, complete := EnumRegionPaths(s.fn, s.walk.Header, func(b *ssa.BasicBlock) bool { return b == stop }, 4000)
 	if !complete {
@@ -1006,6 +1171,7 @@ func (r *Run) c04StepTable(s *mateShape) {
 		return nil
 	}
 	cases := map[string]int{}
+	boundsBad, unclassified := false, false
 	type stepAgg struct {
 		ok             bool
 		n              int
@@ -1027,31 +1193,18 @@ func (r *Run) c04StepTable(s *mateShape) {
 			}
 			continue
 		}
-		// classify
-		ex1, ex2 := 0, 0 // i1>=size1, i2>=size2
+		// classify: what the branch outcomes of the path say about each cursor against its parent's gene count. Every
+		// outcome is read as the comparison that holds, in either operand order (`i1 < size1`, `size1 > i1`, `!(i1 >= size1)`
+		// are one fact); the facts about one cursor are intersected, and a path whose facts contradict each other (the
+		// header saw i1 < size1, the step then takes the i1 >= size1 branch) cannot be executed and is not a step.
+		m1, m2 := c04LT|c04EQ|c04GT, c04LT|c04EQ|c04GT
 		pbv := 0
 		for _, g := range ip.Conds {
-			if b, ok := g.Cond.(*ssa.BinOp); ok {
-				val := -1
-				if g.True {
-					val = 1
-				}
-				if b.X == ssa.Value(i1) && tm.Of(b.Y).String() == "len(recv.Genes)" {
-					switch b.Op {
-					case token.GEQ:
-						ex1 = val
-					case token.LSS:
-						ex1 = -val
-					}
-				}
-				if b.X == ssa.Value(i2) && tm.Of(b.Y).String() == "len(p1.Genes)" {
-					switch b.Op {
-					case token.GEQ:
-						ex2 = val
-					case token.LSS:
-						ex2 = -val
-					}
-				}
+			if _, _, m, ok := c04OrderFact(g.Cond, g.True, isI1, isLen1); ok {
+				m1 &= m
+			}
+			if _, _, m, ok := c04OrderFact(g.Cond, g.True, isI2, isLen2); ok {
+				m2 &= m
 			}
 			if f, w, ok := boolFlagOf(g.Cond); ok && f == ssa.Value(pb) {
 				if g.True == w {
@@ -1061,6 +1214,10 @@ func (r *Run) c04StepTable(s *mateShape) {
 				}
 			}
 		}
+		if m1 == 0 || m2 == 0 {
+			continue
+		}
+		ex1, ex2 := cursorState(m1), cursorState(m2) // 1: the parent's genes are exhausted, -1: they are not, 0: not tested
 		g1, g2, rel := s.matchedPair(ip.Conds)
 		kind := ""
 		switch {
@@ -1075,7 +1232,11 @@ func (r *Run) c04StepTable(s *mateShape) {
 		case rel == ">":
 			kind = "disjoint2"
 		default:
-			// a path through the loop header's own exit tests only
+			// no test on the path says which case the step is in, yet it reaches the skip test with a gene
+			if !unclassified {
+				unclassified = true
+				r.Bad(s.name+".step.unclassified", p.Pos(firstPos(ip)), "a walk step hands a gene on without having established whether it is an excess, disjoint or matching gene (no comparison of the cursors with the gene counts or of the two innovation numbers decides the path)", ip.Describe(p)...)
+			}
 			continue
 		}
 		// which parent do g1/g2 belong to
@@ -1094,6 +1255,13 @@ func (r *Run) c04StepTable(s *mateShape) {
 			}
 		}
 		cases[kind]++
+		// a parent's gene is read at its cursor only when the cursor was found below that parent's gene count
+		need1 := kind == "excess1" || kind == "match" || kind == "disjoint1" || kind == "disjoint2"
+		need2 := kind == "excess2" || kind == "match" || kind == "disjoint1" || kind == "disjoint2"
+		if ((need1 && ex1 != -1) || (need2 && ex2 != -1)) && !boundsBad {
+			boundsBad = true
+			r.Bad(s.name+".step.bounds", p.Pos(firstPos(ip)), "a walk step for a "+kind+" gene reads a parent's gene at a cursor that was not found to be below that parent's gene count: at the end of the shorter parent the walk reads outside the gene list (or the walk goes on after both parents are exhausted)", ip.Describe(p)...)
+		}
 		chosen := ip.ResolveAt(s.chosen)
 		skip := ip.ResolveAt(s.skip1)
 		n1, n2 := ip.ResolveAt(latchVal(i1)), ip.ResolveAt(latchVal(i2))
@@ -1101,8 +1269,12 @@ func (r *Run) c04StepTable(s *mateShape) {
 			if n == ssa.Value(ph) {
 				return 0
 			}
-			if b, ok := n.(*ssa.BinOp); ok && b.Op == token.ADD && b.X == ssa.Value(ph) {
-				if k, ok := b.Y.(*ssa.Const); ok && k.Value != nil && k.Value.ExactString() == "1" {
+			if b, ok := n.(*ssa.BinOp); ok && b.Op == token.ADD {
+				x, y := b.X, b.Y
+				if y == ssa.Value(ph) {
+					x, y = y, x // 1 + i
+				}
+				if k, ok := y.(*ssa.Const); ok && x == ssa.Value(ph) && k.Value != nil && k.Value.ExactString() == "1" {
 					return 1
 				}
 			}
@@ -1170,6 +1342,9 @@ func (r *Run) c04StepTable(s *mateShape) {
 		ag := agg[label]
 		r.Check(ag.ok, label, ag.pos, fmt.Sprintf("%s (%d paths)", ag.good, ag.n), ag.bad, ag.wit...)
 	}
+	if !boundsBad {
+		r.OK(s.name+".step.bounds", p.Pos(firstBlockPos(s.walk.Header)), "a gene is read only at a cursor found below its parent's gene count")
+	}
 	for _, k := range []string{"excess1", "excess2", "match", "disjoint1", "disjoint2"} {
 		if cases[k] == 0 {
 			r.Bad(s.name+".step.missing:"+k, p.Pos(s.fn.Pos()), "the walk has no step for the case "+k)
@@ -1192,13 +1367,12 @@ func (r *Run) c04StepTable(s *mateShape) {
 					exits++
 					have := map[string]bool{}
 					for _, g := range condsAt(b, sx) {
-						if bo, ok := g.Cond.(*ssa.BinOp); ok && bo.Op == token.LSS && !g.True {
-							if bo.X == ssa.Value(i1) && tm.Of(bo.Y).String() == "len(recv.Genes)" {
-								have["1"] = true
-							}
-							if bo.X == ssa.Value(i2) && tm.Of(bo.Y).String() == "len(p1.Genes)" {
-								have["2"] = true
-							}
+						// the fact `cursor >= count` in any spelling (i1 < size1 taken false, size1 > i1 taken false, i1 >= size1 ...)
+						if _, _, m, ok := c04OrderFact(g.Cond, g.True, isI1, isLen1); ok && cursorState(m) == 1 {
+							have["1"] = true
+						}
+						if _, _, m, ok := c04OrderFact(g.Cond, g.True, isI2, isLen2); ok && cursorState(m) == 1 {
+							have["2"] = true
 						}
 					}
 					if have["1"] && have["2"] {
@@ -1233,7 +1407,7 @@ func (r *Run) c04Seeding(s *mateShape) {
 	}
 	src := call.Call.Args[0]
 	st := tm.Of(src)
-	okSrc := st.Op == "elem" && (st.Args[0].String() == "p1.Nodes" || st.Args[0].String() == "recv.Nodes") && loopRangesOver(tm, s.seed, st.Args[0].String())
+	okSrc := st.Op == "elem" && (st.Args[0].String() == "p1.Nodes" || st.Args[0].String() == "recv.Nodes") && c04LoopRangesOver(tm, s.seed, st.Args[0].String())
 	r.Check(okSrc, s.name+".seed.source", p.Pos(call.Pos()), "the loop ranges over all nodes of a parent", "the seeding loop does not range over all nodes of a parent")
 	ins := false
 	for _, ic := range CallsTo(s.fn, ni) {
@@ -1241,6 +1415,9 @@ func (r *Run) c04Seeding(s *mateShape) {
 			ins = true
 		}
 	}
+	okT, whyT := s.c04TraitIndex(call.Call.Args[1], c04NodeTraitIs(src))
+	r.Check(okT, s.name+".seed.trait", p.Pos(call.Pos()), "the copied interface node gets the child's trait at the position of the parent node's trait (0 without a trait)",
+		"the copy of an interface node does not get the child's counterpart of the parent node's trait: "+whyT)
 	r.Check(ins, s.name+".seed.insert", p.Pos(call.Pos()), "the copy is inserted into the child's node list", "the copied interface node is not inserted into the child's node list")
 	// for which roles is the copy reached?
 	body := headerBodySucc(s.seed)
@@ -1291,7 +1468,8 @@ func (r *Run) c04Seeding(s *mateShape) {
 					}
 					continue
 				}
-				if t := tm.Of(g.Cond); t.Op == "bin" && t.Args[1].Op == "nil" {
+				// a nil test (of the node's trait), in any spelling: `x != nil`, `nil != x`, `!(x == nil)`; it does not depend on the role
+				if c04IsNilTest(g.Cond, g.True) {
 					continue
 				}
 				undec = true
